@@ -69,16 +69,15 @@ class Observation:
                 if not self.problem and self.responses and not any(r.get(b"x-call") for r in self.responses[-1:]):
                     return self
         # requests the reference could not delimit (everything behind a message whose framing it cannot know) have no known method:
-        # one of them may have been a HEAD request
-        for k in range(len(methods), len(methods) + 4):
-            alt = list(methods) + [None] * (k - len(methods)) + [b"HEAD"]
-            self.reparse(alt)
-            if not self.problem:
-                return self
-        for k in range(len(methods)):
-            if methods[k] is None:
-                alt = list(methods)
-                alt[k] = b"HEAD"
+        # any of them may have been a HEAD request
+        import itertools
+        unknown = [k for k in range(len(methods)) if methods[k] is None] + list(range(len(methods), len(methods) + 4))
+        unknown = unknown[:5]
+        for r_ in range(1, len(unknown) + 1):
+            for combo in itertools.combinations(unknown, r_):
+                alt = list(methods) + [None] * 4
+                for k in combo:
+                    alt[k] = b"HEAD"
                 self.reparse(alt)
                 if not self.problem:
                     return self
